@@ -96,3 +96,10 @@ func (trans *Transport) VerifPending() int {
 	}
 	return n
 }
+
+// VerifMakeHeader and VerifParseHeader expose the unexported message header functions to the
+// verification harness (read-only accessors, build tag "verif").
+func VerifMakeHeader(index int) [4]byte { return makeHeader(index) }
+
+// VerifParseHeader: see VerifMakeHeader.
+func VerifParseHeader(header []byte) (index int, ok bool) { return parseHeader(header) }
